@@ -312,7 +312,7 @@ def tier_b(ctx, F, builds):
     ctx.log("tier B: %d library calls compared (%.0fs)" % (sum(counts), time.time() - t0))
 
 # ------------------------------------------------------------------ tier (C)
-def tier_c(ctx, F, builds):
+def tier_c_rounds(ctx, F, builds):
     t0 = time.time()
     curves = M.load_curves(builds[0])
     if len(curves) != 32: raise common.Infra("expected 32 built-in curves, the table has %d" % len(curves))
@@ -323,8 +323,13 @@ def tier_c(ctx, F, builds):
         elif ctx.quick: cs = rng.sample([c for c in curves if c.m <= (192 if b.asan else 256)], 2 if b.asan else 4)
         else: cs = rng.sample(curves, 8 if b.asan else 16)
         return key_round(ctx, F, b, cs, rng)
-    with ThreadPoolExecutor(max_workers=min(3, len(builds))) as ex:
+    with ThreadPoolExecutor(max_workers=min(2, len(builds))) as ex:
         res = list(ex.map(per_build, enumerate(builds)))
+    ctx.log("tier C: library rounds done (%.0fs)" % (time.time() - t0))
+    return dict(res=res, ncurves=len(curves))
+
+def tier_c_finish(ctx, F, st):
+    res = st["res"]
     calls = sum(n for _, n in res)
     evs = []
     for i, (evl, _) in enumerate(res):
@@ -332,8 +337,8 @@ def tier_c(ctx, F, builds):
         evs += evl[: ((18 if ctx.quick else 150) if i == 0 else (2 if ctx.quick else 10))]
     nj = M.judge(ctx, F, evs, "c09")
     ctx.add(evaluations=calls, full_size_tuples_decided_by_tlc=nj)
-    ctx.cov["mode_c"] = {"curves": len(curves), "byte_orders": 2, "library_calls": calls, "full_size_tuples_recomputed_by_TLC_through_BigNat": nj}
-    ctx.log("tier C: %d library calls on %d curves, %d full-size tuples recomputed by TLC (%.0fs)" % (calls, len(curves), nj, time.time() - t0))
+    ctx.cov["mode_c"] = {"curves": st["ncurves"], "byte_orders": 2, "library_calls": calls, "full_size_tuples_recomputed_by_TLC_through_BigNat": nj}
+    ctx.log("tier C: %d library calls on %d curves, %d full-size tuples recomputed by TLC" % (calls, st["ncurves"], nj))
 
 def key_round(ctx, F, b, curves, rng):
     """two parties per (curve, byte order): keys from random octets, every export form re-imported, public key from the
@@ -449,9 +454,18 @@ def run(ctx):
     R.build_all(builds, d, par=4)
     ctx.log("built %d drivers: %s" % (len(builds), [b.name for b in builds]))
     only = os.environ.get("VERIF_C09_ONLY", "")
-    if only != "b": M.start_self_check()
+    cres = {}; ct = None
+    if only != "b":
+        M.start_self_check()
+        def work():
+            try: cres["st"] = tier_c_rounds(ctx, F, builds)
+            except BaseException as e: cres["err"] = e
+        ct = threading.Thread(target=work); ct.start()          # library part of tier C while TLC enumerates tier B
     if only != "c": tier_b(ctx, F, builds)
-    if only != "b": tier_c(ctx, F, builds)
+    if ct is not None:
+        ct.join()
+        if "err" in cres: raise cres["err"]
+        tier_c_finish(ctx, F, cres["st"])
     F.flush()
     ctx.cov["builds"] = [b.name for b in builds]
     ctx.cov["rule"] = ("tier B: reachable states of KeyCodecGen under the slice in the .cfg files: one row per point of the whole group, one scan state per "
